@@ -8,9 +8,9 @@ from harness import parse_common as PC
 from harness.driver import Driver, DriverError
 
 PID = 'C02'
-THEOREMS = ['PyDBML.C02.table_roundtrip_partial', 'PyDBML.C02.sticky_roundtrip_partial', 'PyDBML.C02.renderDb_table', 'PyDBML.C02.renderDb_sticky',
+THEOREMS = ['PyDBML.C02.tables_roundtrip_partial', 'PyDBML.C02.renderDb_tables', 'PyDBML.C02.table_roundtrip_partial', 'PyDBML.C02.sticky_roundtrip_partial', 'PyDBML.C02.renderDb_table', 'PyDBML.C02.renderDb_sticky',
             'PyDBML.C02.tableRule_ok', 'PyDBML.C02.many_body', 'PyDBML.C02.stickyNoteRule_ok']
-MODULES = ['PyDBMLProofs.Props.C02Sticky', 'PyDBMLProofs.Props.C02Table']
+MODULES = ['PyDBMLProofs.Props.C02Sticky', 'PyDBMLProofs.Props.C02Table', 'PyDBMLProofs.Props.C02Tables']
 
 
 def canonical_ref_order(spec):
@@ -260,7 +260,7 @@ def main(tier, seed):
             what = f'DBML round trip fails ({r["how"]})'
             case = {'op': 'roundtrip', 'src': r['src']}
             if listed:
-                ctx.fail(what, case, reason=listed[0])
+                ctx.fail(what, case, reason=listed[0], how=r['how'].split(':')[0])
             else:
                 ctx.fail(what + (f' [outside Expressible: {reasons}, not a listed finding]' if reasons else ''), case, detail=r['detail'])
         elif r['reasons']:
@@ -286,10 +286,11 @@ def main(tier, seed):
         rule='databases from three sources: parsed from spelled documents, built through the public classes from Expressible '
              'values, and wild API-built ones (named reasons outside Expressible), plus the corpus; each rendered, re-parsed, '
              're-rendered twice. Non-trivial: >=1 table and >=2 features; distinct by content hash',
-        explanation='Theorems table_roundtrip_partial (a database holding one table in schema public with ANY positive number of columns, '
-                    'each with a quoted name and a one-word type, is rendered by the renderer model and read back by the character-level '
-                    'parser model + build model to exactly the same database: induction over the column list through the fuelled `many`) '
-                    'and sticky_roundtrip_partial (one sticky note, bare name, one-line text), by symbolic execution of the grammar model '
+        explanation='Theorems tables_roundtrip_partial (a database holding ANY positive number of tables with pairwise different names, '
+                    'each with ANY positive number of columns with a quoted name and a one-word type, is rendered by the renderer model and '
+                    'read back by the character-level parser model + build model to exactly the same database - same tables, same columns, '
+                    'same order: two nested inductions through the fuelled `many`, the end rule between elements, the uniqueness folds of '
+                    'build_database), table_roundtrip_partial (the one-table case) and sticky_roundtrip_partial (one sticky note, bare name, one-line text), by symbolic execution of the grammar model '
                     'with general per-primitive lemmas. They are PARTIAL: settings, notes, indexes, enums, references, groups, the '
                     'project and several elements per document are decided by the oracle and the correspondence below, not by a theorem. Oracle on the real code: content(parse(db.dbml)) == content(db) and the second and third renderings are '
                     'byte-identical. Correspondence: the Lean DBML renderer gives the same text and the Lean parser model reads '
